@@ -12,12 +12,30 @@ type commandSequence struct {
 
 func (c commandSequence) handle(ctx *updateContext) (UpdateResult, *regattapb.CommandResult, error) {
 	res := &regattapb.CommandResult{Revision: ctx.index}
+	// The commands of a sequence are leader log entries, each carrying its leader index. A replication round of a node
+	// that has lost the table lease meanwhile may still get committed after the new lease holder has proposed the same
+	// leader entries: apply every leader entry once, in leader order, and never move the recorded leader index backwards.
+	recorded, err := ctx.recordedLeaderIndex()
+	if err != nil {
+		return ResultFailure, nil, err
+	}
+	applied, fresh := recorded, false
 	for _, cmd := range c.Sequence {
+		if cmd.LeaderIndex != nil {
+			if *cmd.LeaderIndex <= applied {
+				continue
+			}
+			applied = *cmd.LeaderIndex
+		}
+		fresh = true
 		_, cmdRes, err := wrapCommand(cmd).handle(ctx)
 		if err != nil {
 			return ResultFailure, nil, err
 		}
 		res.Responses = append(res.Responses, cmdRes.Responses...)
+	}
+	if c.LeaderIndex != nil && (fresh || *c.LeaderIndex >= recorded) {
+		ctx.leaderIndex = c.LeaderIndex
 	}
 	return ResultSuccess, res, nil
 }
